@@ -178,6 +178,11 @@ Inductive op :=
 | Request (f : qforest) (store : bool) (jq : N) (jis : list N)
   (* store: whether the iterators were drained so that their results are flushed to the cache;
      jq / jis: the random jitter draws for the query entry / for the iterator entry of each key *)
+| RaceRead (k : ikey) (ws : list tup) (store : bool) (j : N)
+  (* a bare cached datastore read (no query cache) that RACES with a write: the datastore selects the
+     rows, the write ws commits, and only then the iterator is handed back (cachedIterator.initializedAt
+     = time.Now() after the query returned) and flushed: an entry with pre-write rows and a
+     LastModified that is not before the write *)
 | InvStart
 | InvRead
 | InvFinish
@@ -363,6 +368,32 @@ Definition step (c : cfg) (s : state) (o : op) : state * out :=
   | Write ws =>
     let t := s_now s + c_wtick c in
     (mkSt t (s_db s ++ map (mkCh t) ws) (s_ic s) (s_qc s) (s_cl s) (s_mk s) (s_run s) (s_done s), OUnit)
+  | RaceRead k ws store j =>
+    let now := s_now s in
+    let n0 := length (s_db s) in
+    let t := now + c_wtick c in
+    let db' := s_db s ++ map (mkCh t) ws in
+    let usable :=
+      if c_ion c then
+        match aget ikey_eqb k (s_ic s) with
+        | Some e => if (now <? ie_exp e) && negb (invalid_at (s_mk s) now (ie_lm e) k) then Some e else None
+        | None => None
+        end
+      else None in
+    match usable with
+    | Some e =>   (* served from the cache; the write commits afterwards *)
+      (mkSt (t + c_wtick c) db' (s_ic s) (s_qc s) (s_cl s) (s_mk s) (s_run s) (s_done s),
+       OAns [(k, ie_snap e)] [] [true] false false)
+    | None =>
+      let ic' :=
+        if c_ion c then
+          if store && negb (invalid_at (s_mk s) t t k)
+          then aset ikey_eqb k (mkIE t (t + c_ittl c + jext (c_ittl c) (c_jit c) j) n0) (s_ic s)
+          else adel ikey_eqb k (s_ic s)
+        else s_ic s in
+      (mkSt (t + c_wtick c) db' ic' (s_qc s) (s_cl s) (s_mk s) (s_run s) (s_done s),
+       OAns [(k, n0)] [] [false] false false)
+    end
   | InvStart => let '(s1, b) := spawn s in (s1, OStart b)
   | InvRead =>
     match s_run s with
